@@ -40,7 +40,7 @@ ASSUMPTIONS = [
 
 def run(ctx: Ctx):
   m = model(ctx)
-  for r in (r1, r2, r3, r4, r5, r6, r8, r9, r10, r11, r12, r13, r15, r16, r17):
+  for r in (r1, r2, r3, r4, r5, r6, r8, r9, r10, r11, r12, r13, r15, r16, r17, r18):
     ctx.guard(r, m)
   from mlmverif.props import c01
   ctx.include('R-C11-14', '"merging gives the same result for every grouping and order ... neutral element": the NaN convention of an'
@@ -906,12 +906,71 @@ def r17(ctx: Ctx, m):
   ctx.floor(rule, 1, n)
 
 
+def r18(ctx: Ctx, m):
+  rule = 'R-C11-18'
+  ctx.rule(rule, '"a freshly created (empty) state is a neutral element on either side": a statistic that add/merge combine with a'
+           ' MINIMUM starts at +inf, one they combine with a MAXIMUM starts at -inf — the neutral element of its own'
+           ' combining operation. The class-level default of every field that is re-bound to `np.minimum/np.min/np.fmin(self.f,'
+           ' ...)` (resp. the max family) is that identity: a running maximum that starts at 0 reports 0 for all-negative'
+           ' data, and merging a state into a fresh one changes its maximum')
+  n = 0
+  MINF = {'np.minimum', 'np.min', 'np.fmin', 'np.nanmin', 'np.amin', 'min'}
+  MAXF = {'np.maximum', 'np.max', 'np.fmax', 'np.nanmax', 'np.amax', 'max'}
+  def is_inf(e, sign):
+    if isinstance(e, ast.UnaryOp) and isinstance(e.op, ast.USub):
+      return is_inf(e.operand, -sign)
+    txt = unparse(e)
+    if txt in ('np.inf', 'math.inf', 'numpy.inf', "float('inf')", 'np.Inf', 'np.PINF'):
+      return sign > 0
+    if txt in ("float('-inf')", 'np.NINF'):
+      return sign < 0
+    return False
+  for ci in m.accumulators:
+    defaults = {st.target.id: st.value for st in ci.node.body
+                if isinstance(st, ast.AnnAssign) and isinstance(st.target, ast.Name) and st.value is not None}
+    kinds = {}
+    for name in ('add', 'merge'):
+      fi = ci.methods.get(name)
+      if fi is None:
+        continue
+      for x in walk_no_nested(fi.node):
+        if isinstance(x, ast.Assign) and len(x.targets) == 1 and is_self_attr(x.targets[0]) and isinstance(x.value, ast.Call):
+          fn = unparse(x.value.func)
+          fld = x.targets[0].attr
+          reads_self = any(is_self_attr(y) and y.attr == fld for y in ast.walk(x.value))
+          if reads_self and fn in MINF:
+            kinds.setdefault(fld, set()).add('min')
+          if reads_self and fn in MAXF:
+            kinds.setdefault(fld, set()).add('max')
+    for fld, ks in sorted(kinds.items()):
+      if len(ks) != 1 or fld not in defaults:
+        continue
+      k = next(iter(ks))
+      n += 1
+      anchor = ci.methods.get('merge') or ci.methods.get('add')
+      what = f'{ci.name}.{fld}: the running {k}imum starts at its neutral element'
+      if is_inf(defaults[fld], +1 if k == 'min' else -1):
+        ctx.ok(rule, anchor, what, ci.node)
+      else:
+        ctx.fail(rule, anchor, what,
+                 f'`{fld}` of {ci.name} is combined with a {k}imum but starts at `{unparse(defaults[fld])}`, not at'
+                 f' {"+inf" if k == "min" else "-inf"}: data on the other side of that start value is reported as the start value, and a'
+                 ' fresh state changes the result of the state merged into it', node=ci.node)
+  ctx.floor(rule, 2, n)
+
+
 from mlmverif.selfcheck import B, OK  # noqa: E402
 
 _R = 'aggregates/rolling_stats.py'
 _U = 'aggregates/utils.py'
 _T = 'aggregates/retrieval.py'
 VARIANTS = [
+    B('revert-running-maximum-starts-at-zero', 'aggregates/rolling_stats.py',
+      "  _max: int = -np.inf\n", "  _max: int = 0\n", 'R-C11-18'),
+    B('running-minimum-starts-at-zero', 'aggregates/rolling_stats.py',
+      "  _min: int = np.inf\n", "  _min: int = 0\n", 'R-C11-18'),
+    OK('running-maximum-starts-at-float-minus-inf', 'aggregates/rolling_stats.py',
+       "  _max: int = -np.inf\n", "  _max: int = float('-inf')\n"),
     OK('topk-result-through-a-local-state', 'aggregates/retrieval.py',
        "  def result(self):\n    result = [self._state[metric].result() for metric in self._metrics]", "  def result(self):\n    state = self._state\n    result = [state[metric].result() for metric in self._metrics]"),
     B('topk-result-short-cuts-an-untouched-state', 'aggregates/retrieval.py',
